@@ -180,14 +180,15 @@ class Check:
     shrink_budget = float(os.environ.get('VERIF_SHRINK_S', '45' if self.quick else '240'))
 
     def wrapped(case):
-      if 't_fail' in holder and time.time() - holder['t_fail'] > shrink_budget and repr(case) != holder.get('repr'):
-        return   # shrink budget used up: further candidates are not explored (the best failing case is kept)
+      if ('t_fail' in holder and time.time() - holder['t_fail'] > shrink_budget
+          and repr(case) not in holder['failing']):
+        return   # shrink budget used up: new candidates are not explored (known failing cases still fail)
       try:
         test(case)
       except (Violation, AssertionError, mj.MjError) as e:
         holder.setdefault('t_fail', time.time())
+        holder.setdefault('failing', set()).add(repr(case))
         holder['case'] = case
-        holder['repr'] = repr(case)
         holder['exc'] = e
         raise
 
@@ -196,7 +197,9 @@ class Check:
     try:
       fn()
       return True
-    except (Violation, AssertionError, mj.MjError) as e:
+    except (Violation, AssertionError, mj.MjError, hypothesis.errors.Flaky) as e:
+      if 'exc' not in holder:
+        raise
       e = holder.get('exc', e)
       case = holder.get('case')
       msg = '%s: %s' % (type(e).__name__, e)
